@@ -124,8 +124,8 @@ type agg struct {
 	runs       map[string]int64
 	steps, ops int64
 	overruns   int64
-	allSigs    map[string]struct{}
-	ntSigs     map[string]struct{}
+	allSigs    map[uint64]struct{}
+	ntSigs     map[uint64]struct{}
 	nontrivial int64
 	counters   map[string]int64
 	probes     map[string]int64
@@ -136,7 +136,7 @@ type agg struct {
 }
 
 func newAgg() *agg {
-	return &agg{runs: map[string]int64{}, allSigs: map[string]struct{}{}, ntSigs: map[string]struct{}{},
+	return &agg{runs: map[string]int64{}, allSigs: map[uint64]struct{}{}, ntSigs: map[uint64]struct{}{},
 		counters: map[string]int64{}, probes: map[string]int64{}, tallies: map[string]map[string]int64{}, pairs: map[string]struct{}{}}
 }
 
@@ -149,7 +149,7 @@ func (a *agg) add(lane string, wo workerOut) {
 			a.runs[lane]++
 			a.steps += l.Steps
 			a.ops += int64(l.Ops)
-			key := lane + ":" + l.Sig
+			key := sigKey(lane, l.Sig)
 			a.allSigs[key] = struct{}{}
 			if l.Nontrivial {
 				a.nontrivial++
@@ -202,6 +202,17 @@ func firstViolation(lc laneCfg, wo workerOut) *found {
 		}
 	}
 	return nil
+}
+
+// sigKey folds lane and signature into one 64-bit key (memory: millions of runs).
+func sigKey(lane, sig string) uint64 {
+	var k uint64
+	fmt.Sscanf(sig, "%x", &k)
+	h := uint64(14695981039346656037)
+	for i := 0; i < len(lane); i++ {
+		h = (h ^ uint64(lane[i])) * 1099511628211
+	}
+	return k ^ h
 }
 
 func treeDigest() string {
